@@ -3116,6 +3116,20 @@ def greater_equal(x1: ArrayOrScalar, x2: ArrayOrScalar) -> Array | bool:
 
 # {{{ logical operations
 
+def _scalars_to_truth_values(
+        x1: ArrayOrScalar, x2: ArrayOrScalar) -> tuple[ArrayOrScalar, ArrayOrScalar]:
+    """
+    A scalar operand of a logical operation next to an array contributes only
+    its truth value. (A target language may truncate e.g. 0.5 to an integer
+    before testing it.)
+    """
+    if isinstance(x1, Array) and not isinstance(x2, Array):
+        x2 = int(bool(x2))
+    elif isinstance(x2, Array) and not isinstance(x1, Array):
+        x1 = int(bool(x1))
+    return x1, x2
+
+
 @overload
 def logical_or(x1: Scalar, x2: Scalar, /) -> bool: ...
 
@@ -3134,6 +3148,7 @@ def logical_or(x1: ArrayOrScalar, x2: ArrayOrScalar, /) -> Array | bool:
     # type-ignored because 'broadcast_binary_op' returns Scalar, while
     # '_compare' returns a bool.
     from pytato import utils
+    x1, x2 = _scalars_to_truth_values(x1, x2)
     return utils.broadcast_binary_op(x1, x2,
                                      lambda x, y: prim.LogicalOr((x, y)),
                                      lambda x, y: np.dtype(np.bool_),
@@ -3162,6 +3177,7 @@ def logical_and(x1: ArrayOrScalar, x2: ArrayOrScalar) -> Array | bool:
     # type-ignored because 'broadcast_binary_op' returns Scalar, while
     # '_compare' returns a bool.
     from pytato import utils
+    x1, x2 = _scalars_to_truth_values(x1, x2)
     return utils.broadcast_binary_op(x1, x2,
                                      lambda x, y: prim.LogicalAnd((x, y)),
                                      lambda x, y: np.dtype(np.bool_),
